@@ -266,7 +266,7 @@ Qed.
 
 Lemma py_int_core ds ws2 : ds <> [] -> forallb ascii_digit ds = true -> zlen ds <= int_max_str_digits ->
   forallb blank ws2 = true ->
-  forall neg,
+  forall neg : bool,
   match map classify ds ++ map classify ws2 with
   | CDigit _ :: _ =>
       match int_scan (map classify ds ++ map classify ws2) 0 false with
